@@ -157,12 +157,20 @@ class Frame:
 
 
 class State:
+    """One abstract path: call stack + relational facts.
+
+    Facts are kept as integer intervals (plus excluded points) of *forms*: a form is the
+    primitive non-constant part q of a polynomial p = G*q + c (leading coefficient positive).
+    Every sign fact about p is a bound on q, so facts about p + k for different constants k
+    share one entry.  Atoms are forms too (`bounds`).  Equalities become substitutions.
+    """
+
     def __init__(self, atoms):
         self.atoms = atoms
         self.frames = []
         self.pframes = {}       # promoted / static frames: key -> Frame
         self.bounds = {}        # atom -> (lo, hi)
-        self.facts = {}         # canonical frozen poly -> frozenset of signs
+        self.forms = {}         # canonical frozen form -> (lo, hi, frozenset(excluded))
         self.cong = {}          # atom -> (m, r)
         self.subst = {}         # atom -> poly
         self.notes = []         # provenance: tuples
@@ -176,7 +184,7 @@ class State:
         s.frames = [f.clone() for f in self.frames]
         s.pframes = {k: f.clone() for k, f in self.pframes.items()}
         s.bounds = dict(self.bounds)
-        s.facts = dict(self.facts)
+        s.forms = dict(self.forms)
         s.cong = dict(self.cong)
         s.subst = dict(self.subst)
         s.notes = list(self.notes)
@@ -196,12 +204,20 @@ class State:
             self.journal.append((dname, key, d.get(key, _MISSING)))
         d[key] = val
 
+    def _jdel(self, dname, key):
+        d = getattr(self, dname)
+        if key in d:
+            if self.journal is not None:
+                self.journal.append((dname, key, d[key]))
+            del d[key]
+
     def rollback(self):
         for dname, key, old in reversed(self.journal or []):
-            d = getattr(self, dname)
             if dname == 'notes':
                 del self.notes[key:]
-            elif old is _MISSING:
+                continue
+            d = getattr(self, dname)
+            if old is _MISSING:
                 d.pop(key, None)
             else:
                 d[key] = old
@@ -229,6 +245,8 @@ class State:
 
     # ------------------------------------------------------------ atoms
     def sym(self, name, lo, hi, ty='i128', cong=None):
+        if lo == hi:
+            return Int(ty, lo, hi, pconst(lo))
         a = self.atoms.get(('sym', name))
         self.bounds[a] = (lo, hi)
         if cong:
@@ -239,6 +257,10 @@ class State:
         rlo, rhi = INT_RANGES[ty]
         lo = rlo if lo is None else max(lo, rlo)
         hi = rhi if hi is None else min(hi, rhi)
+        if lo > hi:
+            raise Infeasible()
+        if lo == hi:
+            return Int(ty, lo, hi, pconst(lo))
         a = self.atoms.fresh(tag)
         self._jset('bounds', a, (lo, hi))
         return Int(ty, lo, hi, patom(a))
@@ -247,7 +269,7 @@ class State:
     def norm(self, p):
         if not self.subst:
             return p
-        for _ in range(40):
+        for _ in range(60):
             hit = None
             for m in p:
                 for a in m:
@@ -282,7 +304,7 @@ class State:
         return b
 
     def itv_poly(self, p):
-        """interval of a polynomial from the atom bounds (None = unbounded)"""
+        """interval of a polynomial from the atom bounds only (None = unbounded)"""
         lo = hi = 0
         for m, c in p.items():
             mlo, mhi = 1, 1
@@ -300,12 +322,77 @@ class State:
                 hi += c * mlo
         return (lo, hi)
 
+    @staticmethod
+    def decompose(p):
+        """p (non-constant) = G*q + c with q primitive, non-constant, leading coefficient positive: (qkey, q, G, c)"""
+        from math import gcd
+        c = p.get((), 0)
+        items = sorted((m, v) for m, v in p.items() if m != ())
+        g = 0
+        for _, v in items:
+            g = gcd(g, abs(v))
+        if items[0][1] < 0:
+            g = -g
+        q = {m: v // g for m, v in items}
+        return tuple(sorted(q.items())), q, g, c
+
+    def form_itv(self, qkey, q):
+        lo, hi = self.itv_poly(q)
+        f = self.forms.get(qkey)
+        excl = frozenset()
+        if f is not None:
+            flo, fhi, excl = f
+            if flo is not None:
+                lo = flo if lo is None else max(lo, flo)
+            if fhi is not None:
+                hi = fhi if hi is None else min(hi, fhi)
+        if lo is not None and hi is not None and lo > hi:
+            raise Infeasible()
+        return lo, hi, excl
+
+    def range_of(self, p, depth=0):
+        """(lo, hi) of polynomial p using atom bounds and form facts (None = unbounded)"""
+        p = self.norm(p)
+        c = pis_const(p)
+        if c is not None:
+            return c, c
+        qkey, q, G, c = self.decompose(p)
+        lo, hi, _ = self.form_itv(qkey, q)
+        if G > 0:
+            lo, hi = (None if lo is None else G * lo + c), (None if hi is None else G * hi + c)
+        else:
+            lo, hi = (None if hi is None else G * hi + c), (None if lo is None else G * lo + c)
+        if depth < 1 and len(p) > 2 and self.forms:
+            # one-step decomposition p = k*f + rest over the recorded forms f (tightens sums of a bounded form and bounded atoms)
+            for fkey, (flo, fhi, _ex) in list(self.forms.items()):
+                if len(fkey) >= len(p) or len(fkey) < 2:
+                    continue
+                m0, v0 = fkey[0]
+                pv = p.get(m0)
+                if pv is None or pv % v0 != 0:
+                    continue
+                if any(m not in p for m, _ in fkey):
+                    continue
+                k = pv // v0
+                rest = padd(p, dict(fkey), -k)
+                if len(rest) >= len(p):
+                    continue
+                rlo, rhi = self.range_of(rest, depth + 1)
+                a, b = (flo, fhi) if k > 0 else (fhi, flo)
+                klo = None if a is None else k * a
+                khi = None if b is None else k * b
+                if klo is not None and rlo is not None:
+                    lo = klo + rlo if lo is None else max(lo, klo + rlo)
+                if khi is not None and rhi is not None:
+                    hi = khi + rhi if hi is None else min(hi, khi + rhi)
+        return lo, hi
+
     def itv(self, v):
         lo, hi = v.lo, v.hi
-        p = self.norm(v.p)
-        plo, phi = self.itv_poly(p)
+        plo, phi = self.range_of(v.p)
         if plo is not None:
             lo = max(lo, plo)
+        if phi is not None:
             hi = min(hi, phi)
         if lo > hi:
             raise Infeasible()
@@ -317,33 +404,29 @@ class State:
         c = pis_const(p)
         if c is not None:
             return frozenset(((c > 0) - (c < 0),))
-        lo, hi = self.itv_poly(p)
-        s = set()
-        if lo is None:
-            s = set(ALL)
+        qkey, q, G, c = self.decompose(p)
+        lo, hi, excl = self.form_itv(qkey, q)
+        if G > 0:
+            plo = None if lo is None else G * lo + c
+            phi = None if hi is None else G * hi + c
         else:
-            if lo < 0:
-                s.add(-1)
-            if lo <= 0 <= hi:
-                s.add(0)
-            if hi > 0:
-                s.add(1)
-        cp, flip = pcanon(p)
-        f = self.facts.get(cp)
-        if f is not None:
-            if flip < 0:
-                f = frozenset(-x for x in f)
-            s &= f
-        # congruence: a form that cannot be divisible by its modulus is non-zero
+            plo = None if hi is None else G * hi + c
+            phi = None if lo is None else G * lo + c
+        s = set()
+        if plo is None or plo < 0:
+            s.add(-1)
+        if (plo is None or plo <= 0) and (phi is None or phi >= 0):
+            s.add(0)
+        if phi is None or phi > 0:
+            s.add(1)
         if 0 in s and len(s) > 1:
-            m, r = self.cong_poly(p)
-            if m > 1 and r % m != 0:
+            # p == 0  <=>  q == -c/G
+            if (-c) % G != 0 or ((-c) // G) in excl:
                 s.discard(0)
-            elif m == 0 and r != 0:
-                s.discard(0)
-        if 0 in s and len(s) > 1:
-            # difference of two forms one of which is known non-zero multiple etc. is not attempted
-            pass
+            else:
+                m, r = self.cong_poly(p)
+                if (m > 1 and r % m != 0) or (m == 0 and r != 0):
+                    s.discard(0)
         if not s:
             raise Infeasible()
         return frozenset(s)
@@ -357,68 +440,81 @@ class State:
             raise Infeasible()
         if new == cur:
             return
-        c = pis_const(p)
-        if c is not None:
+        if pis_const(p) is not None:
             return
-        cp, flip = pcanon(p)
-        st = new if flip > 0 else frozenset(-x for x in new)
-        self._jset('facts', cp, st)
-        # refine bounds of a single atom
-        ls = plinear_single(p)
-        if ls is not None:
-            a, c, k = ls
-            self._refine_atom(a, c, k, new)
-        # equality -> substitution (eliminate the oldest atom with unit coefficient in a linear monomial)
-        if new == ZERO:
-            self._add_equality(p)
-
-    def _refine_atom(self, a, c, k, signs):
-        lo, hi = self.atom_itv(a)
-        # c*a + k  in signs
-        def fdiv(x, y):
-            return x // y
+        qkey, q, G, c = self.decompose(p)
+        lo = hi = None
+        excl = ()
 
         def cdiv(x, y):
             return -((-x) // y)
-        nlo, nhi = lo, hi
-        if signs <= NONNEG:
-            # c*a + k >= 0 (or > 0)
-            t = -k if 0 in signs else -k + 1      # c*a >= t
-            if c > 0:
-                b = cdiv(t, c)
-                nlo = b if nlo is None else max(nlo, b)
+        # bounds on p:  p >= tlo, p <= thi
+        tlo = thi = None
+        if new <= POS:
+            tlo = 1
+        elif new <= NONNEG:
+            tlo = 0
+        if new <= NEG:
+            thi = -1
+        elif new <= NONPOS:
+            thi = 0
+        if tlo is not None:
+            # G*q >= tlo - c
+            if G > 0:
+                lo = cdiv(tlo - c, G)
             else:
-                b = fdiv(t, c)
-                nhi = b if nhi is None else min(nhi, b)
-        if signs <= NONPOS:
-            t = -k if 0 in signs else -k - 1      # c*a <= t
-            if c > 0:
-                b = fdiv(t, c)
-                nhi = b if nhi is None else min(nhi, b)
+                hi = (tlo - c) // G
+        if thi is not None:
+            if G > 0:
+                b = (thi - c) // G
+                hi = b if hi is None else min(hi, b)
             else:
-                b = cdiv(t, c)
-                nlo = b if nlo is None else max(nlo, b)
+                b = cdiv(thi - c, G)
+                lo = b if lo is None else max(lo, b)
+        if 0 not in new and (-c) % G == 0:
+            excl = ((-c) // G,)
+        self.constrain(qkey, q, lo, hi, excl)
+
+    def constrain(self, qkey, q, lo, hi, excl=()):
+        """intersect the recorded interval of form q with [lo, hi] and add excluded points"""
+        clo, chi, cex = self.form_itv(qkey, q)
+        nlo = clo if lo is None else (lo if clo is None else max(lo, clo))
+        nhi = chi if hi is None else (hi if chi is None else min(hi, chi))
+        nex = frozenset(cex) | frozenset(excl)
+        # shave excluded end points
+        changed = True
+        while changed and nlo is not None and nhi is not None:
+            changed = False
+            if nlo in nex:
+                nlo += 1
+                changed = True
+            if nhi in nex:
+                nhi -= 1
+                changed = True
+            if nlo > nhi:
+                raise Infeasible()
         if nlo is not None and nhi is not None and nlo > nhi:
             raise Infeasible()
-        if signs == NONZERO and nlo is not None and nhi is not None:
-            # exclude an end point
-            if (-k) % c == 0:
-                z = (-k) // c
-                if nlo == z:
-                    nlo += 1
-                if nhi == z:
-                    nhi -= 1
-                if nlo > nhi:
-                    raise Infeasible()
-        if (nlo, nhi) != (lo, hi):
-            self._jset('bounds', a, (nlo, nhi))
+        nex = frozenset(e for e in nex if (nlo is None or e > nlo) and (nhi is None or e < nhi))
+        old = self.forms.get(qkey)
+        single = len(q) == 1 and len(next(iter(q))) == 1
+        if old != (nlo, nhi, nex) and not (old is None and (nlo, nhi) == (clo, chi) and not nex and not single):
+            self._jset('forms', qkey, (nlo, nhi, nex))
+        if single:
+            a = next(iter(q))[0]
+            if nlo is not None and nhi is not None and self.bounds.get(a) != (nlo, nhi):
+                self._jset('bounds', a, (nlo, nhi))
+        if nlo is not None and nlo == nhi:
+            self._add_equality(padd(q, pconst(nlo), -1))
 
     def _add_equality(self, p):
+        """p == 0: eliminate the oldest atom that occurs with unit coefficient in a linear monomial only"""
         best = None
         for m, c in p.items():
             if len(m) == 1 and abs(c) == 1:
                 a = m[0]
-                # the atom must not occur in any other monomial
+                if a in self.subst:
+                    continue
                 if any(a in m2 for m2 in p if m2 != m):
                     continue
                 if best is None or a < best[0]:
@@ -428,8 +524,48 @@ class State:
         a, c = best
         rest = {m: v for m, v in p.items() if m != (a,)}
         rep = pscale(rest, -c)     # c*a + rest = 0  ->  a = -rest/c
-        # keep interval knowledge: bounds of the replacement atoms are refined lazily (not needed)
+        ab = self.bounds.get(a)
         self._jset('subst', a, rep)
+        # re-key the facts that mention the eliminated atom
+        for key in [k for k in self.forms if any(a in m for m, _ in k)]:
+            lo, hi, ex = self.forms[key]
+            self._jdel('forms', key)
+            np_ = self.norm(dict(key))
+            cc = pis_const(np_)
+            if cc is not None:
+                if (lo is not None and cc < lo) or (hi is not None and cc > hi) or cc in ex:
+                    raise Infeasible()
+                continue
+            qk2, q2, G2, c2 = self.decompose(np_)
+            # old form value = G2*q2 + c2 in [lo, hi]
+            self._constrain_affine(qk2, q2, G2, c2, lo, hi, ex)
+        # the replaced atom's own bounds now constrain the replacement
+        if ab is not None:
+            cc = pis_const(self.norm(rep))
+            if cc is not None:
+                if cc < ab[0] or cc > ab[1]:
+                    raise Infeasible()
+            else:
+                qk2, q2, G2, c2 = self.decompose(self.norm(rep))
+                self._constrain_affine(qk2, q2, G2, c2, ab[0], ab[1], ())
+
+    def _constrain_affine(self, qkey, q, G, c, lo, hi, ex):
+        """G*q + c in [lo, hi], G*q + c not in ex"""
+        def cdiv(x, y):
+            return -((-x) // y)
+        nlo = nhi = None
+        if G > 0:
+            if lo is not None:
+                nlo = cdiv(lo - c, G)
+            if hi is not None:
+                nhi = (hi - c) // G
+        else:
+            if lo is not None:
+                nhi = (lo - c) // G
+            if hi is not None:
+                nlo = cdiv(hi - c, G)
+        nex = [(e - c) // G for e in ex if (e - c) % G == 0]
+        self.constrain(qkey, q, nlo, nhi, nex)
 
     def cong_poly(self, p):
         """(m, r): value = r (mod m); m == 0 means the exact constant r, m == 1 no information"""
@@ -467,11 +603,10 @@ class State:
 
     def in_range(self, p, lo, hi):
         """True / False / None (undecided): lo <= p <= hi"""
-        s1 = self.sign(padd(p, pconst(lo), -1))     # p - lo
-        s2 = self.sign(padd(pconst(hi), p, -1))     # hi - p
-        if s1 <= NONNEG and s2 <= NONNEG:
+        plo, phi = self.range_of(p)
+        if plo is not None and phi is not None and lo <= plo and phi <= hi:
             return True
-        if s1 == NEG or s2 == NEG:
+        if (phi is not None and phi < lo) or (plo is not None and plo > hi):
             return False
         return None
 
@@ -506,6 +641,7 @@ class State:
                     r = False
             return r == when_in
         raise Stop('unknown cond %r' % (c,))
+
 
 
 _MISSING = object()
@@ -598,7 +734,7 @@ class Interp:
                 if fr.si < len(b['stmts']):
                     sp = b['stmts'][fr.si].get('span')
                 sp = sp or b.get('tspan')
-                return (fr.fn['id'], fr.bb, '%s:%s' % (sp.get('file'), sp.get('line')) if sp else '?')
+                return (fr.fn['id'], fr.bb, '%s:%s' % (sp.get('cs_file') or sp.get('file'), sp.get('cs_line') or sp.get('line')) if sp else '?')
         return None
 
     # ------------------------------------------------------------ path execution
@@ -836,7 +972,7 @@ class Interp:
             # promoted bodies are straight-line: evaluate with a private mini loop
             sub = State(st.atoms)
             sub.pframes = st.pframes
-            sub.bounds, sub.facts, sub.cong, sub.subst = st.bounds, st.facts, st.cong, st.subst
+            sub.bounds, sub.forms, sub.cong, sub.subst = st.bounds, st.forms, st.cong, st.subst
             sub.frames = [Frame(None, None, {}), pf]
             pf.dest = None
             guard = 0
@@ -990,9 +1126,11 @@ class Interp:
         """abstract int with term p; interval from the term intersected with [lo,hi] and the type range"""
         p = st.norm(p)
         rlo, rhi = INT_RANGES[ty]
-        plo, phi = st.itv_poly(p)
+        plo, phi = st.range_of(p)
         if plo is None:
-            plo, phi = rlo, rhi
+            plo = rlo
+        if phi is None:
+            phi = rhi
         if lo is not None:
             plo = max(plo, lo)
         if hi is not None:
@@ -1119,9 +1257,9 @@ class Interp:
         Tp = patom(T)
         R = padd(A, pmul(B, Tp), -1)        # remainder A - B*T
         # bounds of T from the intervals
-        alo, ahi = st.itv_poly(A)
-        blo, bhi = st.itv_poly(B)
-        if alo is not None and blo is not None:
+        alo, ahi = st.range_of(A)
+        blo, bhi = st.range_of(B)
+        if None not in (alo, ahi, blo, bhi):
             bm = min(abs(blo), abs(bhi)) if (blo > 0 or bhi < 0) else 1
             bm = max(bm, 1)
             amax = max(abs(alo), abs(ahi))
@@ -1165,8 +1303,8 @@ class Interp:
         R = padd(A, pmul(B, T), -1)
         R = st.norm(R)
         # interval of the remainder: |R| < |B|, sign of A
-        blo, bhi = st.itv_poly(B)
-        bm = max(abs(blo), abs(bhi)) if blo is not None else None
+        blo, bhi = st.range_of(B)
+        bm = max(abs(blo), abs(bhi)) if None not in (blo, bhi) else None
         sa = st.sign(A)
         lo = hi = None
         if bm is not None:
@@ -1209,6 +1347,30 @@ class Interp:
         return (lo & ~mask, mask)
 
     def bitop(self, st, op, a, b, ty):
+        if a.ty == 'bool' and b.ty == 'bool':
+            alo, ahi = st.itv(a)
+            blo, bhi = st.itv(b)
+            ca = alo if alo == ahi else None
+            cb = blo if blo == bhi else None
+            if op == 'BitAnd':
+                if ca == 0 or cb == 0:
+                    return K(0, 'bool')
+                if ca == 1:
+                    return b
+                if cb == 1:
+                    return a
+            elif op == 'BitOr':
+                if ca == 1 or cb == 1:
+                    return K(1, 'bool')
+                if ca == 0:
+                    return b
+                if cb == 0:
+                    return a
+            elif ca is not None and cb is not None:
+                return K(ca ^ cb, 'bool')
+            # undecided combination: decide the left operand first (forks), then re-evaluate
+            ta_ = st.truth(a)
+            return self.bitop(st, op, K(int(ta_), 'bool'), b, ty)
         ta, tb = self.tnum(st, a), self.tnum(st, b)
         if ta is None or tb is None:
             return st.fresh(ty, tag='bits')
